@@ -245,20 +245,24 @@ def gen_traj_case(rng, idx):
                     ops.append(("script", ["cv", "colvar", cn, "delete"]))
                 elif len(pool) >= 8:
                     k = rng.choice([x for x in CV_KINDS if x[0] not in ("orientation", "cartesian")])
-                    ncv = make_cv(rng, sysm, pool, "n%d" % len(extra_objs), k[0])
-                    nbias = make_bias(rng, ncv, "nb%d" % len(extra_objs), allow_centers=True)
-                    nbias["kind_obj"] = "bias"
-                    extra_objs.append(ncv)
-                    extra_objs.append(nbias)
-                    cvs.append(ncv)
-                    biases.append(nbias)
-                    live_cv.append(ncv["name"])
-                    live_b.append(nbias["name"])
-                    txt = ncv["text"] + "\n" + nbias["text"]
-                    if rng.random() < 0.5:
-                        ops.append(("config", txt))
-                    else:
-                        ops.append(("script", ["cv", "config", txt]))
+                    try:
+                        ncv = make_cv(rng, sysm, pool, "n%d" % len(extra_objs), k[0])
+                    except ValueError:
+                        ncv = None      # not enough unused atoms left for this component type: nothing is added at this step
+                    if ncv is not None:
+                        nbias = make_bias(rng, ncv, "nb%d" % len(extra_objs), allow_centers=True)
+                        nbias["kind_obj"] = "bias"
+                        extra_objs.append(ncv)
+                        extra_objs.append(nbias)
+                        cvs.append(ncv)
+                        biases.append(nbias)
+                        live_cv.append(ncv["name"])
+                        live_b.append(nbias["name"])
+                        txt = ncv["text"] + "\n" + nbias["text"]
+                        if rng.random() < 0.5:
+                            ops.append(("config", txt))
+                        else:
+                            ops.append(("script", ["cv", "config", txt]))
             pos = jitter(rng, pos, 0.12)
             fext = [[rng.uniform(-3, 3) for _ in range(3)] for _ in range(NAT)]
             ops.append(("step", pos, fext))
